@@ -34,7 +34,14 @@ for d in sorted(glob.glob(os.path.join(V, "seeded", "*/"))):
     meta["matrix"] = r
     json.dump(meta, open(mp, "w"), indent=1)
     ownres = r["results"].get(own)
-    ownt = "caught" if own in det else ("**missed**" if ownres else r.get("note", "not run"))
+    if own in det:
+        ownt = "caught"
+    elif meta.get("not_decidable"):
+        ownt = "not decidable (see meta.json)"
+    elif det:
+        ownt = "not by the own check"
+    else:
+        ownt = "**not caught**"
     keys = ""
     if ownres and ownres["keys"]:
         keys = "; ".join(k.strip("[] ") for k in ownres["keys"][:2])
